@@ -94,7 +94,17 @@ func c19Requests(cfgName string, confirm, jsonMode, wideWhitelist bool, dl time.
 		}
 	}
 
-	for ti, table := range []*world.World{empty, withU1} {
+	tables := []*world.World{empty, withU1}
+	if confirm {
+		// the existing account has not confirmed its address yet (its confirmation token is outstanding)
+		unconf := world.NewWorld("B1")
+		flows.SeedAcct(s, unconf, flows.Acct{PID: U1, Password: P1, Unconfirmed: true})
+		r := unconf.DB.Users[U1]
+		r.ConfirmSelector, r.ConfirmVerifier = "c2VsZWN0b3Itb2YtdGhlLW91dHN0YW5kaW5nLXRva2Vu", "dmVyaWZpZXItb2YtdGhlLW91dHN0YW5kaW5nLXRva2Vu"
+		unconf.DB.Users[U1] = r
+		tables = append(tables, unconf)
+	}
+	for ti, table := range tables {
 		for _, em := range emails {
 			for _, pw := range passwords {
 				for _, cf := range confirms {
@@ -455,7 +465,7 @@ func c19Rules(shard, nShards, maxLen int, minima []int, dl time.Time) engine.Uni
 func init() {
 	engine.Register(&engine.Property{
 		ID: "C19", Level: "exploration",
-		Rule: "(a) complete product of registration bodies: email {new, existing, case variant, malformed, blank, missing, duplicated} x password {compliant, one class short of each minimum, 7 bytes, inner and surrounding whitespace, blank, missing, duplicated} x confirm_password {equal, different, missing} x every subset of 7 hostile extra fields (incl. names that extend a whitelisted name), from an empty table and one holding the account, with/without confirm, form/JSON, two whitelists, against a reference validator, and for every valid request (and the plain invalid ones) each backend call failed in turn (safety half only); (b) Rules.IsValid against an independent reference for every string up to the tier's length over {A,a,1,!,space,TAB} x a grid of rule settings; classes = (validity class, email class, password class) triples",
+		Rule: "(a) complete product of registration bodies: email {new, existing, case variant, malformed, blank, missing, duplicated} x password {compliant, one class short of each minimum, 7 bytes, inner and surrounding whitespace, blank, missing, duplicated} x confirm_password {equal, different, missing} x every subset of 7 hostile extra fields (incl. names that extend a whitelisted name), from an empty table, one holding the account and (with confirm) one holding it unconfirmed with its token outstanding, with/without confirm, form/JSON, two whitelists, against a reference validator, and for every valid request (and the plain invalid ones) each backend call failed in turn (safety half only); (b) Rules.IsValid against an independent reference for every string up to the tier's length over {A,a,1,!,space,TAB} x a grid of rule settings; classes = (validity class, email class, password class) triples",
 		Units: func(tier string) []engine.Unit {
 			var us []engine.Unit
 			for _, confirm := range []bool{false, true} {
